@@ -16,6 +16,8 @@ import (
 	"github.com/hprose/hprose-golang/v3/rpc/mock"
 	"github.com/hprose/hprose-golang/v3/rpc/socket"
 	"github.com/hprose/hprose-golang/v3/rpc/udp"
+	"github.com/hprose/hprose-golang/v3/rpc/websocket"
+	"verif/fakews"
 	"verif/mcgo/h"
 	"verif/mcgo/sockfake"
 	"verif/vs"
@@ -97,7 +99,7 @@ func (sc scen) name(tr string) string {
 // connLost reports whether the scripted fault ends the connection (so pending calls must fail promptly).
 func connLost(f sockfake.Fault) bool {
 	switch f.Act {
-	case "close", "reset", "bad-checksum", "garbage":
+	case "close", "reset", "bad-checksum", "garbage", "close-message", "short-message":
 		return true // a frame that fails its checksum makes the client drop the connection
 	}
 	return false // silent / oversized-length: the connection stays open and nothing more arrives
@@ -399,7 +401,99 @@ func only(tr string) {
 		udp.RegisterTransport()
 	case "mock":
 		mock.RegisterTransport()
+	case "websocket":
+		websocket.RegisterTransport()
 	}
+}
+
+// ---- websocket: message transport; faults = silent / close / reset / close message / short message ----
+
+func wsScenario(fault string, callers int, timeout time.Duration, abort bool, quick, thorough int) h.Scenario {
+	sc := scen{fault: sockfake.Fault{Pos: "message", Act: fault}, callers: callers, timeout: timeout, abort: abort}
+	name := sc.name("websocket")
+	var maxExecs int64
+	if callers >= 2 && os.Getenv("VERIF_TIER") != "thorough" {
+		maxExecs = 450000
+	}
+	return h.Scenario{Name: name, Quick: quick, Thorough: thorough, AllowHang: true, MaxExecs: maxExecs, Run: func(ch vs.Chooser, trace bool) (*vs.Sched, h.Outcome) {
+		res := make([]callRes, callers)
+		var follow callRes
+		followFails := 0
+		dials := 0
+		var first *fakews.Conn
+		abortArmed := false
+		only("websocket")
+		echo := func(c *fakews.Conn, m fakews.Message) []fakews.Message {
+			return []fakews.Message{{Type: fakews.BinaryMessage, Data: append(append([]byte{}, m.Data[:4]...), append([]byte("re:"), m.Data[4:]...)...)}}
+		}
+		fakews.Dial = func(url string) (*fakews.Conn, error) {
+			dials++
+			if dials > 1 {
+				return &fakews.Conn{Name: fmt.Sprintf("ws%d", dials), React: echo}, nil
+			}
+			done := false
+			first = &fakews.Conn{Name: "ws1"}
+			first.React = func(c *fakews.Conn, m fakews.Message) []fakews.Message {
+				if done {
+					return nil
+				}
+				done = true
+				switch fault {
+				case "silent":
+					return nil
+				case "close":
+					c.PeerClose(nil)
+					return nil
+				case "reset":
+					c.PeerClose(errors.New("read: connection reset by peer"))
+					return nil
+				case "close-message":
+					return []fakews.Message{{Type: fakews.CloseMessage, Data: nil}}
+				case "short-message":
+					return []fakews.Message{{Type: fakews.BinaryMessage, Data: []byte{1, 2}}}
+				case "answer-then-close":
+					c.PeerClose(nil)
+					return echo(c, m)
+				}
+				panic(fault)
+			}
+			return first, nil
+		}
+		var pendingConns, pendingCalls int
+		s := vs.Run(ch, vs.Config{Trace: trace}, func() {
+			client := core.NewClient("ws://peer/")
+			var wg vs.WaitGroup
+			for i := 0; i < callers; i++ {
+				i := i
+				wg.Add(1)
+				vs.GoFG(fmt.Sprintf("caller%d", i), func() {
+					defer wg.Done()
+					res[i] = doCall(client, context.Background(), fmt.Sprintf("req%d", i), timeout)
+				})
+			}
+			if abort {
+				wg.Add(1)
+				vs.GoFG("aborter", func() {
+					defer wg.Done()
+					abortArmed = first != nil && len(first.Sent) >= callers
+					client.Abort()
+				})
+			}
+			wg.Wait()
+			follow, followFails = followUps(client)
+		})
+		sc2 := sc
+		sc2.abort = abort && abortArmed
+		if fault == "answer-then-close" {
+			sc2.fault.Pos = "after-response"
+			sc2.fault.Act = "close"
+		}
+		o := judge(name, sc2, s, res, follow, followFails, pendingConns, pendingCalls, 0, dials)
+		if abort {
+			o.Key += fmt.Sprint(" abort-after-request-written=", abortArmed)
+		}
+		return s, o
+	}}
 }
 
 func main() {
@@ -434,6 +528,11 @@ func main() {
 			scens = append(scens, udpScenario(f, 1, to, false, 1, 2))
 		}
 		scens = append(scens, udpScenario("silent", 1, to, true, 1, 2))
+		for _, f := range []string{"silent", "close", "reset", "close-message", "short-message", "answer-then-close"} {
+			scens = append(scens, wsScenario(f, 1, to, false, 1, 2))
+		}
+		scens = append(scens, wsScenario("silent", 1, to, true, 1, 2))
+		scens = append(scens, wsScenario("close", 2, to, false, 1, 2), wsScenario("answer-then-close", 2, to, false, 1, 2))
 		scens = append(scens, udpScenario("reset", 2, to, false, 1, 2))
 		for _, b := range []string{"answer", "error", "panic", "never"} {
 			scens = append(scens, mockScenario(b, to, false, false))
